@@ -132,6 +132,15 @@ def summarise(prop, tier, seed, rep):
             vac.append('%s: precondition not shown satisfiable (%s)' % (o.func, o.verdict))
     if not proofs:
         vac.append('zero obligations generated')
+    # every function with normal-exit postconditions must have at least one feasible normal exit
+    by_func = {}
+    for o in covers:
+        if o.clause == 'vacuity.path-feasible' and o.meta.get('exit') == 'normal':
+            by_func.setdefault(o.func, []).append(verify.status(o))
+    for fn in set(o.func for o in proofs if o.kind == 'post'):
+        sts = by_func.get(fn, [])
+        if not sts or all(x == 'dead' for x in sts):
+            vac.append('%s: no feasible normal exit (postconditions hold vacuously)' % fn)
     for o in rep['planted']:
         pass
     planted_by = {}
